@@ -71,6 +71,7 @@ type finfo struct {
 	retCont org                        // summary: content of returned references
 	writes  []access
 	reads   []access
+	externs []access // library calls that receive a reference to shared memory (kind = callee name)
 	spawns  bool
 	shared  []bool // per parameter / free variable: may denote a shared object
 }
@@ -182,7 +183,7 @@ func rootsOf(v ssa.Value, seen map[ssa.Value]bool, out *[]ssa.Value) {
 		}
 	case *ssa.Call:
 		*out = append(*out, v) // content given by the callee summary
-		if b, ok := v.Call.Value.(*ssa.Builtin); ok && b.Name() == "append" {
+		if b, ok := v.Call.Value.(*ssa.Builtin); ok && (b.Name() == "append" || b.Name() == "ssa:wrapnilchk") {
 			rootsOf(v.Call.Args[0], seen, out)
 		}
 	}
@@ -259,14 +260,29 @@ func calleeArg(c *ssa.CallCommon, g *ssa.Function, k int) ssa.Value {
 	return nil
 }
 
+func inScopeInterface(t types.Type) bool {
+	n, ok := types.Unalias(t).(*types.Named)
+	if !ok {
+		return false
+	}
+	if _, isIface := n.Underlying().(*types.Interface); !isIface {
+		return false
+	}
+	return n.Obj().Pkg() != nil && scopePkgs[n.Obj().Pkg().Path()]
+}
+
 func (fi *finfo) mapSummary(c *ssa.CallCommon, g *ssa.Function, s org) org {
+	return fi.mapWith(func(k int) ssa.Value { return calleeArg(c, g, k) }, s)
+}
+
+func (fi *finfo) mapWith(argOf func(k int) ssa.Value, s org) org {
 	res := org{global: s.global, unknown: s.unknown}
 	for k := 0; k < 64; k++ {
 		m := uint64(1) << uint(k)
 		if s.pdir&m == 0 && s.pdeep&m == 0 {
 			continue
 		}
-		a := calleeArg(c, g, k)
+		a := argOf(k)
 		if a == nil {
 			res.unknown = true
 			continue
@@ -295,6 +311,8 @@ func (fi *finfo) callOrg(call *ssa.Call) (org, org) {
 				cont = fi.load(c.Args[1])
 			}
 			return fi.get(c.Args[0]), cont
+		case "ssa:wrapnilchk": // returns its first argument
+			return fi.get(c.Args[0]), fi.load(c.Args[0])
 		default:
 			return org{}, org{}
 		}
@@ -304,8 +322,43 @@ func (fi *finfo) callOrg(call *ssa.Call) (org, org) {
 			gi := fi.w.info[j]
 			return fi.mapSummary(c, g, gi.ret), fi.mapSummary(c, g, gi.retCont)
 		}
-		if allocators[shortName(g)] {
+		name := shortName(g)
+		if allocators[name] {
 			return org{}, org{}
+		}
+		if strings.HasPrefix(name, "maps.Clone[") || strings.HasPrefix(name, "slices.Clone[") {
+			return org{}, fi.load(c.Args[0]) // a fresh container with the same elements
+		}
+		if strings.HasPrefix(name, "(reflect.Value).") && len(c.Args) > 0 {
+			o := fi.both(c.Args[0]) // a view of the receiver
+			return o, o
+		}
+	}
+	if c.IsInvoke() && inScopeInterface(c.Value.Type()) {
+		// an interface declared in the analysed packages: its implementations are the analysed ones
+		// (schemas are composed of the SDK's own schema types)
+		if callees := fi.w.siteCallees[call]; len(callees) > 0 {
+			o, cont := org{}, org{}
+			for _, j := range callees {
+				g := fi.w.funcs[j]
+				gi := fi.w.info[j]
+				if len(g.Blocks) == 0 {
+					o.unknown = true
+					continue
+				}
+				argOf := func(k int) ssa.Value {
+					if k == 0 {
+						return c.Value
+					}
+					if k-1 < len(c.Args) && k < len(g.Params) {
+						return c.Args[k-1]
+					}
+					return nil
+				}
+				o = o.union(fi.mapWith(argOf, gi.ret))
+				cont = cont.union(fi.mapWith(argOf, gi.retCont))
+			}
+			return o, cont
 		}
 	}
 	o := org{}
@@ -381,6 +434,58 @@ func (fi *finfo) transfer(v ssa.Value) org {
 	return org{unknown: true}
 }
 
+// capturedReadOnly: closure g only ever loads its k-th captured variable, and stores no reference
+// into memory reached from it, nor hands a reference loaded from it to a call
+func capturedReadOnly(g *ssa.Function, k int) bool {
+	if k >= len(g.FreeVars) || len(g.Blocks) == 0 {
+		return false
+	}
+	fv := g.FreeVars[k]
+	for _, ref := range *fv.Referrers() {
+		if u, ok := ref.(*ssa.UnOp); !ok || u.Op != token.MUL {
+			return false
+		}
+	}
+	derived := func(v ssa.Value) bool { return v != nil && baseOf(v, 0) == ssa.Value(fv) }
+	for _, b := range g.Blocks {
+		for _, ins := range b.Instrs {
+			switch ins := ins.(type) {
+			case *ssa.Store:
+				if derived(ins.Addr) && pointerLike(ins.Val.Type()) {
+					return false
+				}
+			case *ssa.MapUpdate:
+				if derived(ins.Map) && (pointerLike(ins.Value.Type()) || pointerLike(ins.Key.Type())) {
+					return false
+				}
+			case *ssa.Send:
+				if derived(ins.Chan) {
+					return false
+				}
+			case *ssa.MakeClosure:
+				for _, bnd := range ins.Bindings {
+					if derived(bnd) {
+						return false
+					}
+				}
+			case ssa.CallInstruction:
+				c := ins.Common()
+				if _, ok := c.Value.(*ssa.Builtin); ok {
+					continue
+				}
+				for _, a := range append([]ssa.Value{c.Value}, c.Args...) {
+					if derived(a) && pointerLike(a.Type()) {
+						if _, isFn := a.(*ssa.Function); !isFn {
+							return false
+						}
+					}
+				}
+			}
+		}
+	}
+	return true
+}
+
 // prepare collects what is stored into the local roots of the function
 func (fi *finfo) prepare() {
 	add := func(target ssa.Value, f func() org) {
@@ -413,7 +518,10 @@ func (fi *finfo) prepare() {
 				add(ins.Chan, func() org { return fi.both(x) })
 				escape(x)
 			case *ssa.MakeClosure:
-				for _, bnd := range ins.Bindings {
+				for k, bnd := range ins.Bindings {
+					if g, ok := ins.Fn.(*ssa.Function); ok && capturedReadOnly(g, k) {
+						continue
+					}
 					escape(bnd)
 				}
 			case *ssa.Go:
@@ -619,7 +727,7 @@ var mutators = map[string]int{ // library functions that write through an argume
 	"sort.Slice": 0, "sort.SliceStable": 0, "sort.Sort": 0, "sort.Stable": 0, "sort.Strings": 0, "sort.Ints": 0,
 	"sort.Float64s": 0, "encoding/json.Unmarshal": 1, "(*encoding/json.Decoder).Decode": 1,
 	"github.com/fxamacker/cbor/v2.Unmarshal": 1, "(*github.com/fxamacker/cbor/v2.Decoder).Decode": 1,
-	"gopkg.in/yaml.v3.Unmarshal": 1, "reflect.Copy": 0,
+	"gopkg.in/yaml.v3.Unmarshal": 1, "reflect.Copy": 0, "errors.As": 1,
 }
 
 func isMutator(name string) (int, bool) {
@@ -632,7 +740,19 @@ func isMutator(name string) (int, bool) {
 	return 0, false
 }
 
-// library functions that are synchronisation operations or plainly do not write through their arguments
+// synchronisation operations are what guards are made of, not writes
+func isSyncOp(name string) bool {
+	return strings.HasPrefix(name, "(*sync.") || strings.HasPrefix(name, "sync/atomic.") || strings.HasPrefix(name, "(*sync/atomic.")
+}
+
+// externName: the library function without its type arguments
+func externName(g *ssa.Function) string {
+	if o := g.Origin(); o != nil {
+		g = o
+	}
+	return shortName(g)
+}
+
 func (fi *finfo) pos(p token.Pos) string {
 	if !p.IsValid() {
 		return ""
@@ -723,6 +843,9 @@ func describe(v ssa.Value, seen map[ssa.Value]bool) string {
 		sort.Strings(parts)
 		return "phi(" + strings.Join(parts, "|") + ")"
 	case *ssa.Call:
+		if isNilChk(v) {
+			return describe(v.Call.Args[0], seen)
+		}
 		return calleeName(&v.Call) + "()"
 	case *ssa.Alloc:
 		return "local"
@@ -783,6 +906,11 @@ func baseOf(v ssa.Value, depth int) ssa.Value {
 		return baseOf(v.X, depth+1)
 	case *ssa.ChangeType:
 		return baseOf(v.X, depth+1)
+	case *ssa.Call:
+		if isNilChk(v) {
+			return baseOf(v.Call.Args[0], depth+1)
+		}
+		return nil
 	case *ssa.Phi:
 		var b ssa.Value
 		for _, e := range v.Edges {
@@ -798,6 +926,11 @@ func baseOf(v ssa.Value, depth int) ssa.Value {
 		return b
 	}
 	return nil
+}
+
+func isNilChk(c *ssa.Call) bool {
+	b, ok := c.Call.Value.(*ssa.Builtin)
+	return ok && b.Name() == "ssa:wrapnilchk"
 }
 
 type ipos struct {
@@ -987,6 +1120,15 @@ func (fi *finfo) collect() {
 					if _, in := fi.w.id[g]; !in {
 						if k, ok := isMutator(shortName(g)); ok && k < len(c.Args) {
 							write(at, ins, "extern "+shortName(g), c.Args[k])
+						} else if !isSyncOp(shortName(g)) {
+							for _, a := range c.Args {
+								if !pointerLike(a.Type()) {
+									continue
+								}
+								if o := fi.get(a); !o.isZero() {
+									fi.externs = append(fi.externs, access{kind: externName(g), org: o})
+								}
+							}
 						}
 					}
 				}
